@@ -98,14 +98,39 @@ class Instance:
             return None
         return caps
 
+    def documented_caps(self):
+        """Per-edge repetition cap as the inexact cyclic models document it (stDiGraph.compute_edge_max_reachable_value):
+        the largest flow value among the edge itself, the edges reachable from its head and the edges that reach its
+        tail (missing value = 0); 1 for an edge that lies in no cycle.  Recomputed here with plain reachability so that
+        a known-finding match never rests on numbers read from the model under test."""
+        H = self.H
+        scc = {}
+        for i, comp in enumerate(nx.strongly_connected_components(H)):
+            for v in comp:
+                scc[v] = i
+        val = {e: float(self.f.get(e, 0)) for e in H.edges()}
+        caps = {}
+        for (a, b) in H.edges():
+            if scc[a] != scc[b]:
+                caps[(a, b)] = 1
+                continue
+            fwd = nx.descendants(H, b) | {b}
+            bwd = nx.ancestors(H, a) | {a}
+            best = val[(a, b)]
+            for (x, y), w in val.items():
+                if x in fwd or y in bwd:
+                    best = max(best, w)
+            caps[(a, b)] = best
+        return caps
+
     def cap_explains_gap(self, model, ref_desc, best_of, obj_re, tol):
-        """Does the model's own repetition cap (edge_upper_bounds) account for a sub-optimal answer?
+        """Does the documented repetition cap (documented_caps, not the numbers inside the model) account for a sub-optimal answer?
         False: the reference solution respects the caps, or something within the caps beats the returned solution.
         True: the reference needs a repetition above the cap on some edge and the complete family of walks within
         the caps contains nothing better than what the model returned. None: the reference exceeds the caps but the
         capped family could not be enumerated completely."""
-        caps = self.model_caps(model)
-        if caps is None or not isinstance(ref_desc, list) or not ref_desc:
+        caps = self.documented_caps()
+        if not isinstance(ref_desc, list) or not ref_desc:
             return False
         try:
             mults = [d if isinstance(d, dict) else self.mult_of(list(d)) for d in ref_desc]
